@@ -292,6 +292,15 @@ impl<A: Read + Write + io::Seek> ZipWriter<A> {
         let (archive_offset, directory_start, number_of_files) =
             ZipArchive::get_directory_counts(&mut readwriter, &footer, cde_start_pos)?;
 
+        // The central directory precedes the end record. A start beyond it (possible with a lying
+        // ZIP64 end record, even with zero entries) would make the writer reposition itself, and
+        // later write, far past the end of the archive.
+        if directory_start > cde_start_pos {
+            return Err(ZipError::InvalidArchive(
+                "Invalid central directory size or offset",
+            ));
+        }
+
         if readwriter
             .seek(io::SeekFrom::Start(directory_start))
             .is_err()
